@@ -49,6 +49,8 @@ var pinnedAsms = []pinnedAsm{
 	{prop: "C08", name: "colon-before-counter", mode: "94", m: 8000, length: 100, text: "lbl: i for 2\ndat #i, #lbl\nrof\n", want: []string{"DAT.F #1, #0", "DAT.F #2, #7999"}},
 	{prop: "C08", name: "colon-after-label-in-body", mode: "94", m: 8000, length: 100, text: "Gap: j for 1\nzz9: div Gap+0, zz9\nrof\njmp zz9\n", want: []string{"DIV.F $0, $0", "JMP.B $7999, $0"}},
 	{prop: "C08", name: "junk-in-dead-block", mode: "94", m: 8000, length: 100, text: "dat 1\nfor 0\n#$@ !! ~\nrof\ndat 2\n", want: []string{"DAT.F #0, $1", "DAT.F #0, $2"}},
+	{prop: "C07", name: "assert-after-own-line-label", mode: "94", m: 8000, length: 100, text: "lbl\n;assert 0\ndat 1\n", wantErr: true},
+	{prop: "C07", name: "assert-after-own-line-label-with-for", mode: "94", m: 8000, length: 100, text: "lbl:\n;assert 1-1\ni for 2\ndat i\nrof\n", wantErr: true},
 	{prop: "C07", name: "constant-in-for-count", mode: "94", m: 8000, length: 100, text: "n equ CORESIZE/4000\ni for n\ndat #i, #MAXLENGTH\nrof\nj for MAXLENGTH/50\ndat #j, #0\nrof\n", want: []string{"DAT.F #1, #100", "DAT.F #2, #100", "DAT.F #1, #0", "DAT.F #2, #0"}},
 	{prop: "C08", name: "equ-trailing-comment-in-count", mode: "94", m: 8000, length: 100, text: "x equ 2 ; two\ni for x\ndat #i, #0\nrof\n", want: []string{"DAT.F #1, #0", "DAT.F #2, #0"}},
 	{prop: "C05", name: "assert-with-cyclic-equ", mode: "94", m: 8000, length: 100, text: "a equ b\nb equ a\n;assert a\nmov a, b\n", wantErr: true},
